@@ -5,7 +5,7 @@ import copy
 import re
 
 from .core import run_property, AnalysisIncomplete, walk, peel, last_seg, calls_in, callee_all, src_facts
-from .den import Evaluator, FxInterp, Interp, Unanalysable, fmt_set, INF
+from .den import Evaluator, FxInterp, Interp, Unanalysable, EvalPanic, fmt_set, INF
 from .abnf import Abnf
 from . import parsemodel as pm
 from .parsemodel import P, term
@@ -366,6 +366,41 @@ def r5_printer(rep, facts):
     rep.check(R, 'Display for Datetime|order', order == ['date', 'time', 'offset'] and 'T' in dt, f'{order}, delimiter T', f'Datetime prints fields in the order {order} with literals {dt}', facts.loc(b))
 
 
+def r5b_printed_values(rep, facts):
+    R = rep.rule('C12/R5b', 'what the printer writes denotes the value it was given: Display for Datetime evaluated on sample values (local date, local time, local and offset date-times; '
+                 'offsets Z, +00:00, -00:00 as a numeric zero, +07:30, -08:00, +23:59; nanoseconds 0, 5e8, 1, 999999999; second 60; year 0 and 9999) and the text read by the '
+                 'specification\'s rules gives back the same fields — in particular a numeric zero offset is not printed as Z, which both parsers read as another value', floor=20)
+    from .printdrive import PrintInterp
+    d = facts.method('core::fmt::Display', 'toml_datetime::datetime::Datetime', 'fmt')
+    if not d or not facts.has_body(d):
+        rep.incomplete(R, 'Display for Datetime', 'not found')
+        return
+    b = facts.body(d)
+    DT = 'toml_datetime::datetime::'
+    SOME_, NONE_ = 'core::option::Option::Some', 'core::option::Option::None'
+    opt = lambda v: ('ctor', NONE_) if v is None else ('ctor', SOME_, (v,))
+    date = lambda y, m, dd: ('struct', DT + 'Date', {'year': y, 'month': m, 'day': dd})
+    time = lambda h, mi, sec, ns: ('struct', DT + 'Time', {'hour': h, 'minute': mi, 'second': sec, 'nanosecond': ns})
+    off = lambda o: ('ctor', DT + 'Offset::Z') if o == 'Z' else ('struct', DT + 'Offset::Custom', {'minutes': o})
+    dates = [(1979, 5, 27), (0, 1, 1), (9999, 12, 31), (2000, 2, 29)]
+    times = [(7, 32, 0, 0), (0, 0, 0, 500000000), (23, 59, 60, 1), (12, 0, 5, 999999999), (1, 2, 3, 120000000)]
+    offs = ['Z', 0, 450, -480, 1439, -1]
+    samples = [(dd, None, None) for dd in dates] + [(None, tt, None) for tt in times] + [(dates[0], tt, None) for tt in times] + [(dates[i % 4], times[i % 5], o) for i, o in enumerate(offs)]
+    for dd, tt, oo in samples:
+        model = ('struct', DT + 'Datetime', {'date': opt(date(*dd) if dd else None), 'time': opt(time(*tt) if tt else None), 'offset': opt(off(oo) if oo is not None else None)})
+        label = f'{dd} {tt} {oo}'
+        it = PrintInterp(Evaluator(facts))
+        try:
+            it.apply_fn(b, [model, ('formatter',)])
+            text = it.text()
+        except (Unanalysable, EvalPanic, TypeError, KeyError, IndexError) as ex:
+            rep.incomplete(R, label, f'cannot evaluate Display for Datetime on {label}: {ex}', facts.loc(b))
+            continue
+        back = spec_datetime(text)
+        rep.check(R, label, back == (dd, tt, oo), f'{text}', f'the date-time (date {dd}, time {tt}, offset {oo}) is printed as `{text}`, which the specification reads as {back}: printing and reading '
+                  f'back changes the value', facts.loc(b))
+
+
 def r6_bridge(rep, facts):
     R = rep.rule('C12/R6', 'the serde bridge converts only with Display (to_string) and str::parse::<Datetime>; no third conversion exists', floor=3)
     pairs = (("<toml_edit::de::datetime::DatetimeDeserializer as serde::de::MapAccess<'de>>::next_value_seed", 'to_string', None),
@@ -476,6 +511,7 @@ def rules(rep, facts):
     r3b_digit(rep, facts)
     r4_truncation(rep, facts)
     r5_printer(rep, facts)
+    r5b_printed_values(rep, facts)
     r7_shapes(rep, facts)
     if g is not None:
         from .rules_c01 import r2_ranges
